@@ -355,31 +355,47 @@ def redirects(prog, an, rep):
         len(prs) == 1 else None
     cand = [v for _, v in stores_to(h, by.id) if v is not None] \
         if isinstance(by, ast.Name) else []
-    ok = any(_maps(v, 'get_parent_branch', by.id) for v in cand)
+    # ... the parent branch of every branch that holds the commit
+    ok = False
+    for v in cand:
+        over = _maps(v, 'get_parent_branch')
+        if not over:
+            continue
+        for w in [x for _, x in stores_to(h, over) if x is not None]:
+            if isinstance(w, ast.ListComp) and len(w.generators) == 1 and \
+                    not w.generators[0].ifs and \
+                    isinstance(w.elt, ast.Call) and \
+                    src(w.elt.func) == 'branch_factory' and \
+                    src(w.elt.args[-1]) == src(w.generators[0].target) and \
+                    'get_branches_from_commit(%s.commit)' % h.params[0] in \
+                    src(w.generators[0].iter):
+                ok = True
     rep.check(ok, R, h.qname + ': pull requests are looked up by the '
               'parent source branch of every candidate', h.where(),
               'prs = %s, candidates = %s' % ([src(v) for v in prs],
                                              [src(v) for v in cand]))
 
 
-def _maps(expr, fn, over):
-    """expr is `fn` applied to every element of the name `over`:
-    list(map(fn, over)) / [fn(x) for x in over] (no filter)."""
+def _maps(expr, fn):
+    """If expr is `fn` applied to every element of a list held in a name,
+    list(map(fn, xs)) / [fn(x) for x in xs] (no filter): that name."""
     e = expr
     while isinstance(e, ast.Call) and src(e.func) in ('list', 'tuple') and \
             len(e.args) == 1:
         e = e.args[0]
     if isinstance(e, ast.Call) and src(e.func) == 'map' and \
-            len(e.args) == 2:
-        return src(e.args[0]) == fn and src(e.args[1]) == over
+            len(e.args) == 2 and src(e.args[0]) == fn and \
+            isinstance(e.args[1], ast.Name):
+        return e.args[1].id
     if isinstance(e, (ast.ListComp, ast.GeneratorExp)) and \
             len(e.generators) == 1:
         g = e.generators[0]
-        return not g.ifs and src(g.iter) == over and \
-            isinstance(e.elt, ast.Call) and src(e.elt.func) == fn and \
-            len(e.elt.args) == 1 and not e.elt.keywords and \
-            src(e.elt.args[0]) == src(g.target)
-    return False
+        if not g.ifs and isinstance(g.iter, ast.Name) and \
+                isinstance(e.elt, ast.Call) and src(e.elt.func) == fn and \
+                len(e.elt.args) == 1 and not e.elt.keywords and \
+                src(e.elt.args[0]) == src(g.target):
+            return g.iter.id
+    return None
 
 
 def declined_cleanup(prog, an, rep):
